@@ -98,6 +98,7 @@ class Ctx:
         self.idx = -1
         self.undecided = 0
         self.skipped = 0
+        self.known = {}
 
     # -- bookkeeping -------------------------------------------------------------------------
     def tally(self, key, n=1):
@@ -125,6 +126,16 @@ class Ctx:
 
     def fail(self, sig, op, inputs, expected=None, observed=None, note=""):
         """Record a violation. `sig` is the narrow call-site/input-class signature used by known_findings."""
+        rec = {"family": self.fam, "sig": sig, "inputs": jsonable(inputs)}
+        dump = os.environ.get("VERIF_DUMP_FAILS")
+        if dump:
+            with open(dump, "a") as f:
+                f.write(json.dumps({"property": self.pid, **rec}, sort_keys=True) + "\n")
+        kf = match_finding(load_findings(), self.pid, rec)
+        if kf is not None:
+            self.known[kf["id"]] = self.known.get(kf["id"], 0) + 1
+            self.t["KNOWN:" + kf["id"]] += 1
+            return
         if len(self.fails) < MAX_FAILS_PER_TASK:
             self.fails.append(
                 {
@@ -168,6 +179,7 @@ class Ctx:
             "capped": self.capped,
             "undecided": self.undecided,
             "skipped": self.skipped,
+            "known": self.known,
         }
 
 
@@ -212,23 +224,42 @@ def _run_task(task):
     return ctx.result()
 
 
+_FINDINGS = None
+
+
 def load_findings():
-    p = os.path.join(VERIF, "known_findings.json")
-    if not os.path.exists(p):
-        return []
-    with open(p) as f:
-        return json.load(f)["findings"]
+    """known_findings.json (read-only at run time). A finding may carry `inputs_file`: a committed list of the exact
+    failing inputs; then only those inputs are accepted as that finding."""
+    global _FINDINGS
+    if _FINDINGS is None:
+        p = os.path.join(VERIF, "known_findings.json")
+        _FINDINGS = []
+        if os.path.exists(p):
+            with open(p) as f:
+                _FINDINGS = json.load(f)["findings"]
+            for kf in _FINDINGS:
+                if kf.get("status") == "known" and "inputs_file" in kf:
+                    with open(os.path.join(VERIF, kf["inputs_file"])) as g:
+                        kf["_inputs"] = {json.dumps(x, sort_keys=True) for x in json.load(g)}
+    return _FINDINGS
 
 
 def match_finding(findings, pid, fail):
     for kf in findings:
         if kf.get("status") != "known" or kf.get("property") != pid:
             continue
-        if kf.get("sig") != fail["sig"]:
+        if "sig_regex" in kf:
+            import re
+
+            if not re.fullmatch(kf["sig_regex"], fail["sig"]):
+                continue
+        elif kf.get("sig") != fail["sig"]:
             continue
         if "family" in kf and kf["family"] != fail["family"]:
             continue
         if "inputs" in kf and kf["inputs"] != fail["inputs"]:
+            continue
+        if "_inputs" in kf and json.dumps(fail["inputs"], sort_keys=True) not in kf["_inputs"]:
             continue
         return kf
     return None
@@ -364,13 +395,11 @@ def run_check(pid, tier, seed, time_cap=None):
     fails.sort(key=lambda f: (order[f["family"]], f["idx"], f["sig"]))
 
     findings = load_findings()
-    known_hit, new = {}, []
-    for f in fails:
-        kf = match_finding(findings, pid, f)
-        if kf is not None:
-            known_hit.setdefault(kf["id"], [kf, 0])[1] += 1
-        else:
-            new.append(f)
+    known_hit, new = {}, list(fails)
+    by_id = {kf["id"]: kf for kf in findings if kf.get("status") == "known"}
+    for r in results:
+        for kid, n in r.get("known", {}).items():
+            known_hit.setdefault(kid, [by_id[kid], 0])[1] += n
     for kid, (kf, n) in sorted(known_hit.items()):
         print(f"KNOWN-FINDING: property={pid} {kf['what']} [{kid}; hit {n}x]")
 
